@@ -192,6 +192,15 @@ func runC11(c *Ctx) {
 			}
 		}
 	}
+	// the library promises no replay it cannot deliver: http.Request.GetBody stays what http.NewRequest made it (nil for
+	// a streamed body, so that net/http refuses to re-send on a 307/308 instead of sending an empty or partial buffer)
+	for _, fn := range p.LibFuncs("rt/client") {
+		for _, st := range fieldStores(fn, "net/http.Request", "GetBody") {
+			if st.Parent() == fn {
+				c.obD("R11.2", st, "no-replay-promised", false, "the client never installs http.Request.GetBody: the bytes of a streamed body exist once", short(fn.String())+" sets req.GetBody: a redirect or retry re-sends whatever the buffer happens to hold instead of the body that was sent")
+			}
+		}
+	}
 	// the accessor the auth writer calls hands on what the installed getBody function returns — for every method, media
 	// type and body kind (no shortcut answers before or instead of it)
 	if acc := p.FnOpt("(*rt/client.request).GetBody"); acc != nil {
@@ -725,7 +734,14 @@ func runC11(c *Ctx) {
 			if okH {
 				okN, _ := allOrigins(elems[0], oCallWhere(-1, "rt/client.escapeQuotes", func(e *ssa.Call) bool { return e.Call.Args[0] == extractOf(ml.Next, 1) }))
 				okF, _ := allOrigins(elems[1], oCallWhere(-1, "rt/client.escapeQuotes", func(e *ssa.Call) bool {
-					okk, _ := allOrigins(e.Call.Args[0], oCall(-1, "path/filepath.Base"))
+					okk, _ := allOrigins(e.Call.Args[0], oCallWhere(-1, "path/filepath.Base", func(b *ssa.Call) bool {
+						// … the base name of the file's own Name(), as it is (not a rewritten name)
+						okName, _ := allOrigins(b.Call.Args[0], func(o Origin) bool {
+							nc := asCall(o.V)
+							return nc != nil && ifaceMethodCalled(&nc.Call) == "Name"
+						})
+						return okName
+					}))
 					return okk
 				}))
 				okH = okN && okF
